@@ -439,6 +439,50 @@ fn boundary_producers(rep: &mut Report) {
     }
     edge!(f32, Quat, Vec3, 1e-45);
     edge!(f64, DQuat, DVec3, 5e-324);
+    // q and -q are the same rotation: interpolating between exactly opposite unit quaternions stays unit
+    macro_rules! antipodal {
+        ($S:ident, $Q:ident, $V3:ident) => {{
+            let tn = stringify!($Q);
+            rep.sweep(&format!("boundary producers/{tn} exactly opposite pairs/7 axes x 9 angles x 5 parameters"), 7 * 9 * 5, |idx, acc| {
+                let dirs: [[$S; 3]; 7] = [[1.0, 0.0, 0.0], [0.0, 1.0, 0.0], [0.0, 0.0, -1.0], [0.6, 0.0, 0.8], [0.0, -0.6, 0.8], [0.57735026, 0.57735026, 0.57735026], [-0.2, 0.3, 0.93273790530888]];
+                let d = dirs[(idx % 7) as usize];
+                let ang = [0.0 as $S, 1e-3, 0.5, 1.0, 1.5707964, 2.0, 3.0, 3.1415927, 4.5][((idx / 7) % 9) as usize];
+                let s = [0.0 as $S, 0.25, 0.5, 0.75, 1.0][(idx / 63) as usize];
+                let q = <$Q>::from_axis_angle(<$V3>::new(d[0], d[1], d[2]).normalize(), ang);
+                acc.eval(true, idx);
+                for (site, r) in [("lerp(q, -q)", catch(|| q.lerp(-q, s))), ("slerp(q, -q)", catch(|| q.slerp(-q, s))), ("lerp(-q, q)", catch(|| (-q).lerp(q, s))), ("rotate_towards(q, -q)", catch(|| q.rotate_towards(-q, 0.3))), ("(-q).inverse()", catch(|| (-q).inverse())), ("q * -q^-1", catch(|| q * (-q).inverse()))] {
+                    match r {
+                        Err(p) => acc.fail(&format!("edge::{tn}::{site}"), format!("q={:?} s={:?} panicked: {p}", q, s)),
+                        Ok(b) => if !b.is_normalized() { acc.fail(&format!("edge::{tn}::{site}(unit)"), format!("q={:?} s={:?} result={:?}", q, s, b)); },
+                    }
+                }
+            });
+        }};
+    }
+    antipodal!(f32, Quat, Vec3);
+    antipodal!(f64, DQuat, DVec3);
+    // a Vec3A whose unused fourth lane holds an infinity or a NaN is a perfectly valid unit vector:
+    // every producer / consumer behaves as for the same three lanes with a clean register
+    rep.sweep("boundary producers/Vec3A with a non-finite hidden lane/7 directions x 5 hidden values", 35, |idx, acc| {
+        let dirs: [[f32; 3]; 7] = [[1.0, 0.0, 0.0], [0.0, 1.0, 0.0], [0.0, 0.0, -1.0], [0.6, 0.0, 0.8], [0.0, -0.6, 0.8], [0.57735026, 0.57735026, 0.57735026], [-0.2, 0.3, 0.9327379]];
+        let d = dirs[(idx % 7) as usize];
+        let h = [f32::INFINITY, f32::NEG_INFINITY, f32::NAN, 3e38, -1e-45][(idx / 7) as usize];
+        let clean = Vec3A::new(d[0], d[1], d[2]) * 2.5;
+        let dirty = Vec3A::from_vec4(Vec4::new(d[0], d[1], d[2], h)) * 2.5;
+        acc.eval(true, idx);
+        let q = Quat::from_axis_angle(Vec3::new(0.6, 0.0, 0.8), 0.7);
+        let run = |v: Vec3A| catch(move || {
+            let n = v.normalize();
+            let t = v.try_normalize().unwrap_or(Vec3A::ZERO);
+            let (a, b) = n.any_orthonormal_pair();
+            (v.is_finite(), n.to_array(), t.to_array(), v.normalize_or_zero().to_array(), a.to_array(), b.to_array(), (q * n).to_array(), Vec3A::Y.reflect(n).to_array(), Vec3A::Y.project_onto_normalized(n).to_array(), n.is_normalized(), Quat::from_axis_angle(Vec3::from(n), 0.3).to_array(), v.clamp_length(0.5, 1.5).to_array())
+        });
+        match (run(clean), run(dirty)) {
+            (Ok(c), Ok(dv)) => if format!("{:?}", c) != format!("{:?}", dv) { acc.fail("edge::Vec3A(non-finite hidden lane)", format!("v={:?} hidden={:?}: {:?} differs from the clean register's {:?}", clean, h, dv, c)); },
+            (Ok(_), Err(p)) => acc.fail("edge::Vec3A(non-finite hidden lane)", format!("v={:?} hidden={:?} panicked: {p}", clean, h)),
+            (Err(p), _) => acc.fail("edge::Vec3A(clean register)", format!("v={:?} panicked: {p}", clean)),
+        }
+    });
 }
 
 fn negative_table(rep: &mut Report) {
